@@ -114,6 +114,17 @@ func genC02(tier string) []Scenario {
 			}
 		}
 	}
+	// the sibling routes that install the exec function (builder method / constructor option,
+	// Result style / Any style) give every item the same budget and fallback treatment
+	for via := viaBuilderAny; via <= viaOptionAny; via++ {
+		for _, c := range []int{0, 2} {
+			for _, fb := range []bool{false, true} {
+				sc := batchScn{name: fmt.Sprintf("retry-batch-item via %s n=2 c=%d budget=2 fallback=%v", viaNames[via], c, fb), n: 2, c: c, budget: 2, fb: fb, execVia: via,
+					shape: shResults, yield: c > 0, execMenu: okOrErrMenu, fbMenu: fbOkOrErr, postMenu: postX, bound: 0, chkPerItem: true, chkPositional: true}
+				out = append(out, sc.scenario())
+			}
+		}
+	}
 	// an item that prep hands out as an error Result is still an item: it gets its attempts too
 	for _, c := range []int{0, 2} {
 		for _, fb := range []bool{false, true} {
